@@ -666,7 +666,7 @@ def selfcheck(ctx, prog, chk):
     table = {}
     for fn in verifiers(prog):
         base = fn.name.split("__")[-1]
-        table[base] = row_dec if base == "cp_sd_ver" else ({"guards": []} if base in ("cp_rsa_ver", "pad_pkcs2") else row)
+        table[base] = row_dec if base == "cp_sd_ver" else ({"guards": []} if base in ("cp_rsa_ver", "pad_pkcs2", "cp_ecss_ver") else row)
     analyse(ctx, prog, chk, table)
 
 
